@@ -1,7 +1,10 @@
 (* Property C03 - a text is a straight-line program: later lines see the latest binding.
    STATEMENTS ONLY (proofs: Proofs/C03.v).
    Model functions: Interp.execute_ast (AAssignment name toks e creates / updates the variable
-   only after e evaluated; AVariable reads the value at use time), Base.assoc / assoc_insert (the
+   only after e evaluated: an existing variable, looked up under `name`, keeps its key and
+   tokens; a new one is stored under Parser.var_key of the name tokens; for every node the parser
+   builds the two keys coincide (C03_parsed_key_is_var_key); AVariable reads the value at use
+   time), Base.assoc / assoc_insert (the
    session's BTreeMap), Parser.parse / parse_assignment / assign_name_loop (key = lower-cased name
    tokens joined by one space; the parser never touches the session), Rules.find_location /
    pick_variable (closest-then-longest match), Match.info_eq_token, Api.execute_text and
@@ -36,15 +39,30 @@ Theorem C03_assign_exec : forall cfg vs name toks (e : ast F), pure e = true ->
   Ok (r, match r with IOk v => store name toks v vs | IErr _ => vs end).
 Proof. exact (exec_assign bexec). Qed.
 
-(* after the line, lookup of the name gives the value (a new variable carries the name tokens of
-   the line, an existing one keeps its own); all other names are unchanged *)
+(* [store] is the model's update, and the key it writes is `name` for an existing variable and
+   `var_key vs toks` for a new one *)
+Theorem C03_store_is_model : forall name toks (v : ast F) vs,
+  store name toks v vs =
+  match assoc name vs with
+  | Some vi => assoc_insert name {| v_tokens := v_tokens vi; v_data := v |} vs
+  | None => assoc_insert (var_key vs toks) {| v_tokens := toks; v_data := v |} vs
+  end.
+Proof. exact store_model. Qed.
+
+Theorem C03_written_key : forall name (toks : list (token F)) vs,
+  (forall vi, assoc name vs = Some vi -> written_key name toks vs = name) /\
+  (assoc name vs = None -> written_key name toks vs = var_key vs toks).
+Proof. exact written_key_spec. Qed.
+
+(* after the line, lookup of the written key gives the value (a new variable carries the name
+   tokens of the line, an existing one keeps its own); all other keys are unchanged *)
 Theorem C03_assign_binds : forall cfg vs name toks (e : ast F) v,
   pure e = true -> eval_pure bexec cfg (var_value vs) e = Ok (IOk v) ->
   exists vs', execute_ast bexec cfg vs (AAssignment name toks e) = Ok (IOk v, vs') /\
-    assoc name vs' =
+    assoc (written_key name toks vs) vs' =
       Some {| v_tokens := match assoc name vs with Some vi => v_tokens vi | None => toks end;
               v_data := v |} /\
-    (forall k, k <> name -> assoc k vs' = assoc k vs).
+    (forall k, k <> written_key name toks vs -> assoc k vs' = assoc k vs).
 Proof. exact (assign_binds bexec). Qed.
 
 Theorem C03_failed_assignment_preserves_session : forall cfg vs name toks (e : ast F) m,
@@ -52,12 +70,12 @@ Theorem C03_failed_assignment_preserves_session : forall cfg vs name toks (e : a
   execute_ast bexec cfg vs (AAssignment name toks e) = Ok (IErr m, vs).
 Proof. exact (assign_failed bexec). Qed.
 
-(* every line tree (a use, or an assignment of an assignment-free tree): no name other than the
-   assigned one changes, no variable disappears, an error or a use changes nothing, a successful
+(* every line tree (a use, or an assignment of an assignment-free tree): no key other than the
+   written one ([assigned vs a]) changes, no variable disappears, an error or a use changes nothing, a successful
    assignment is exactly [store] *)
 Theorem C03_line_frame : forall cfg vs (a : ast F) r vs',
   line_ast a = true -> execute_ast bexec cfg vs a = Ok (r, vs') ->
-  (forall k, assigned a <> Some k -> assoc k vs' = assoc k vs) /\
+  (forall k, assigned vs a <> Some k -> assoc k vs' = assoc k vs) /\
   (forall k, assoc_mem k vs = true -> assoc_mem k vs' = true) /\
   match r with
   | IErr _ => vs' = vs
@@ -73,19 +91,29 @@ Proof. exact (exec_line_frame bexec). Qed.
    holds ---- *)
 Theorem C03_value_not_reference : forall cfg vs x y ty vx,
   assoc x vs = Some vx ->
+  let ky := written_key y ty vs in
   execute_ast bexec cfg vs (AAssignment y ty (AVariable x)) =
     Ok (IOk (v_data vx), store y ty (v_data vx) vs) /\
-  value_of (store y ty (v_data vx) vs) y = Some (v_data vx) /\
-  forall (a : ast F) r vs2, line_ast a = true -> assigned a <> Some y ->
+  value_of (store y ty (v_data vx) vs) ky = Some (v_data vx) /\
+  forall (a : ast F) r vs2, line_ast a = true -> assigned (store y ty (v_data vx) vs) a <> Some ky ->
     execute_ast bexec cfg (store y ty (v_data vx) vs) a = Ok (r, vs2) ->
-    value_of vs2 y = Some (v_data vx).
+    value_of vs2 ky = Some (v_data vx).
 Proof. exact (copy_is_value bexec). Qed.
 
-(* ---- refinement of the reference semantics: for every program of assignment and use lines the
-   results are those of Spec/Env.run, line by line, and every name keeps denoting what the
-   reference environment binds it to ---- *)
-Theorem C03_refines : forall cfg p vs en outs vs',
-  forallb (fun st => stmt_pure (fst st)) p = true -> Rel vs en ->
+(* ---- refinement of the reference semantics: for every program of assignment and use lines as
+   the parser builds them (pline: an assignment node carries the key of its own name tokens,
+   C03_parsed_key_is_var_key; prun evaluates one tree after the other) the results are those of
+   Spec/Env.run, line by line, and every name keeps denoting what the reference environment binds
+   it to ---- *)
+Theorem C03_refines : forall cfg (p : list pline) vs en outs vs',
+  forallb pl_pure p = true -> Rel vs en -> prun bexec cfg vs p = Ok (outs, vs') ->
+  snd (run (spec_eval bexec cfg) spec_value en (pl_spec p)) = map Ok outs /\
+  Rel vs' (fst (run (spec_eval bexec cfg) spec_value en (pl_spec p))).
+Proof. exact (refines_parsed bexec). Qed.
+
+(* the same for arbitrary hand-built nodes, whose name must then be the key of their tokens *)
+Theorem C03_refines_nodes : forall cfg p vs en outs vs',
+  forallb (fun st => stmt_pure (fst st)) p = true -> Forall key_ok p -> Rel vs en ->
   mrun bexec cfg vs p = Ok (outs, vs') ->
   snd (run (spec_eval bexec cfg) spec_value en (map fst p)) = map Ok outs /\
   Rel vs' (fst (run (spec_eval bexec cfg) spec_value en (map fst p))).
@@ -93,19 +121,18 @@ Proof. exact (refines bexec). Qed.
 
 (* the abstraction is exact: a name is a variable of the session iff the reference environment
    binds it, with the same value (there is no variable without a binding) *)
-Theorem C03_refines_exact : forall cfg vs en st toks x,
-  stmt_pure st = true -> RelDom vs en -> mstep bexec cfg vs (st, toks) = Ok x ->
-  RelDom (snd x) (fst (step (spec_eval bexec cfg) spec_value en st)).
-Proof. exact (step_refines_exact bexec). Qed.
+Theorem C03_refines_exact : forall cfg vs en (l : pline) x,
+  pl_pure l = true -> RelDom vs en -> execute_ast bexec cfg vs (pl_ast vs l) = Ok x ->
+  RelDom (snd x) (fst (step (spec_eval bexec cfg) spec_value en (fst (pl_stmt l)))).
+Proof. exact (refines_exact_parsed bexec). Qed.
 
 (* later lines see the latest binding: the value of the last assignment that evaluated *)
-Theorem C03_latest_binding : forall cfg p vs en outs vs' n,
-  forallb (fun st => stmt_pure (fst st)) p = true -> Rel vs en ->
-  mrun bexec cfg vs p = Ok (outs, vs') ->
+Theorem C03_latest_binding : forall cfg (p : list pline) vs en outs vs' n,
+  forallb pl_pure p = true -> Rel vs en -> prun bexec cfg vs p = Ok (outs, vs') ->
   var_value vs' n =
-  match latest spec_value n (lookup n en) (combine (map fst p) (map Ok outs)) with
+  match latest spec_value n (lookup n en) (combine (pl_spec p) (map Ok outs)) with
   | Some v => v | None => ANone end.
-Proof. exact (latest_binding bexec). Qed.
+Proof. exact (latest_binding_parsed bexec). Qed.
 
 (* ---- names of several words: `w1 .. wn = e` (e a C02 expression tree) is read as the
    assignment of the key "lower(w1) lower(w2) .. lower(wn)" (one space between the words), the
@@ -114,6 +141,32 @@ Theorem C03_multiword_assign_parse : forall vs w ws (e : expr F), wf e = true ->
   parse (massign_toks (w :: ws) e) vs =
   (PAst (AAssignment (name_key (w :: ws)) (name_toks (w :: ws)) (ast_of e)), vs).
 Proof. exact multiword_assign_parse. Qed.
+
+(* the bridge between the lookup key and the storage key, UNCONDITIONAL: over the tokens up to
+   the first '=' (operators included) assign_name_loop computes exactly var_key; hence for EVERY
+   token list an assignment node built by the parser has name = var_key of its name tokens, and
+   the interpreter writes the key that was looked up *)
+Theorem C03_lookup_key_is_var_key : forall (t0 : token F) ts rhs vs,
+  no_eq ts ->
+  assign_name_loop (S (length (t0 :: ts ++ TOperator OP_EQ :: rhs))) (t0 :: ts ++ TOperator OP_EQ :: rhs) vs 0
+                   (to_lowercase (token_to_string vs t0)) =
+  (S (S (length ts)), var_key vs (t0 :: ts)).
+Proof. exact lookup_key_is_var_key. Qed.
+
+Theorem C03_parsed_key_is_var_key : forall (tokens : list (token F)) vs name toks e vs',
+  parse tokens vs = (PAst (AAssignment name toks e), vs') -> name = var_key vs toks.
+Proof. exact parsed_key_is_var_key. Qed.
+
+Theorem C03_parsed_written_key : forall (tokens : list (token F)) vs name toks e vs',
+  parse tokens vs = (PAst (AAssignment name toks e), vs') -> forall vs0, written_key name toks vs0 = name.
+Proof. exact parsed_written_key. Qed.
+
+Theorem C03_var_key_name_toks : forall (vs : vars F) ws, var_key vs (name_toks ws) = name_key ws.
+Proof. exact var_key_name_toks. Qed.
+
+Theorem C03_word_name_written_key : forall (vs : vars F) ws,
+  written_key (name_key ws) (name_toks ws) vs = name_key ws.
+Proof. exact word_name_written_key. Qed.
 
 Theorem C03_name_key_is_space_joined : forall w ws,
   name_key (w :: ws) = to_lowercase w ++ flat_map (fun x => 32%N :: to_lowercase x) ws.
@@ -254,6 +307,25 @@ Theorem C03_ghost_repaired :
 Proof. exact ghost_repaired. Qed.
 
 (* ---- formerly known finding C03-name-key-collision: `ab` and `a b` are different variables ---- *)
+(* ---- a name with an operator word (`sum` = +) in second or later position, or with an
+   operator character: the operator token is part of the key; `grand sum` and `grand` are
+   independent variables, the longer name wins, re-binding replaces the value ---- *)
+Theorem C03_operator_word_name :
+  outs ["grand sum = 10"; "grand = 7"; "grand sum"; "grand"; "grand sum = 3"; "grand sum + grand"]
+    = [ok "10"; ok "7"; ok "10"; ok "7"; ok "3"; ok "10"] /\
+  outs ["grand sum = 10"; "grand sum = 25"; "grand sum + 1"; "Grand Sum * 2"]
+    = [ok "10"; ok "25"; ok "26"; ok "50"] /\
+  outs ["net-pay = 100"; "net-pay = 150"; "net-pay + 1"] = [ok "100"; ok "150"; ok "151"].
+Proof. exact operator_word_name. Qed.
+
+(* ---- formerly a defect (repaired in /repo 60764fa): `grand sum = ..` no longer overwrites a
+   bound `grand`, in either order of binding ---- *)
+Theorem C03_operator_word_crosswrite_repaired :
+  outs ["grand = 7"; "grand sum = 10"; "grand"; "grand sum"] = [ok "7"; ok "10"; ok "7"; ok "10"] /\
+  outs ["grand sum = 10"; "grand = 7"; "grand sum = 3"; "grand sum"; "grand"]
+    = [ok "10"; ok "7"; ok "3"; ok "3"; ok "7"].
+Proof. exact operator_word_crosswrite_repaired. Qed.
+
 Theorem C03_collision_repaired :
   outs ["ab = 1"; "a b = 2"; "ab"; "a b"] = [ok "1"; ok "2"; ok "1"; ok "2"] /\
   outs ["a bc = 1"; "ab c = 2"; "a bc + ab c"] = [ok "1"; ok "2"; ok "3"].
@@ -262,14 +334,22 @@ Proof. exact collision_repaired. Qed.
 Print Assumptions C03_assoc_insert_lookup.
 Print Assumptions C03_rhs_reads_values.
 Print Assumptions C03_assign_exec.
+Print Assumptions C03_store_is_model.
+Print Assumptions C03_written_key.
 Print Assumptions C03_assign_binds.
 Print Assumptions C03_failed_assignment_preserves_session.
 Print Assumptions C03_line_frame.
 Print Assumptions C03_value_not_reference.
 Print Assumptions C03_refines.
+Print Assumptions C03_refines_nodes.
 Print Assumptions C03_refines_exact.
 Print Assumptions C03_latest_binding.
 Print Assumptions C03_multiword_assign_parse.
+Print Assumptions C03_lookup_key_is_var_key.
+Print Assumptions C03_parsed_key_is_var_key.
+Print Assumptions C03_parsed_written_key.
+Print Assumptions C03_var_key_name_toks.
+Print Assumptions C03_word_name_written_key.
 Print Assumptions C03_name_key_is_space_joined.
 Print Assumptions C03_distinct_names_distinct_keys.
 Print Assumptions C03_name_key_ci.
@@ -291,4 +371,6 @@ Print Assumptions C03_failed_line_removable.
 Print Assumptions C03_examples.
 Print Assumptions C03_overlap_example.
 Print Assumptions C03_ghost_repaired.
+Print Assumptions C03_operator_word_name.
+Print Assumptions C03_operator_word_crosswrite_repaired.
 Print Assumptions C03_collision_repaired.
